@@ -179,7 +179,7 @@ class DT(Inverter):
             try:
                 response = await self._read_from_socket(self._READ_DEVICE_MODEL)
                 response = response.response_data()
-                self.model_name = response[0:16].decode("ascii").rstrip('\x00').strip()
+                self.model_name = response[0:16].decode("ascii", errors="replace").rstrip('\x00').strip()
             except InverterError as e:
                 logger.debug("No model name sent from the inverter.")
 
